@@ -8,6 +8,12 @@
     activation; safety invariants (the property's statements on ghosts) + convergence, liveness under
     fairness; spec mutants that must be refuted (non-vacuity); the pinned code's deviation (HupFix = FALSE)
     must produce the "finalized twice" counterexample, the repaired one none.
+    dispatch_source_set_cancel_handler[_f] on an ACTIVATED source (Cancel_set*.cfg): handlers are generations, the call is
+    the C sequence (flags load, try-acquire of the source's barrier + inline exchange + wakeup(BARRIER_COMPLETE), or a
+    barrier item on the source's own list drained first by every invoke2); the last installed handler runs exactly once
+    whenever it was installed (before the cancel, between cancel and callout, after the final state), a replaced one
+    never after its replacement took effect, none twice; the seeded reading of "ignore handler mutations past
+    cancellation" is a spec mutant that must be refuted.
 (B) real executions: harness/drv_cancel.c runs seeded random life-cycle scenarios on real sources of every
     kind (custom data, timer, read/write on pipes and socketpairs, signal) with cancels from every context,
     under schedule perturbation and steering at the source's own atomics; API-level oracles (the property's
@@ -22,17 +28,20 @@ PROP = "C16"
 TSPEC, TCFG = "CancelTrace.tla", "CancelTrace.cfg"
 M_HANGUP_BITS = (1 << 10) | (1 << 11)      # M_HANGUP_RACE, M_CAW_HANGUP of drv_cancel.c
 M_REG_BITS = (1 << 12) | (1 << 13) | (1 << 14)   # M_REG_CANCEL, M_REG_MERGE, M_REG_MERGE_CANCEL
-ALL_MODES = (1 << 15) - 1
+M_SCH_BITS = 0x3f << 15                          # M_SCH_HANDLER .. M_SCH_TWICE: set_cancel_handler after activation
+ALL_MODES = (1 << 21) - 1
 ALL_KINDS = (1 << 8) - 1
 FD_KINDS = 0x78                             # read/write on pipe/socketpair
 KF_KEY = "hangup_double_finalize"
 
 QUICK = ["Cancel_data_q.cfg", "Cancel_timer_q.cfg", "Cancel_signal_q.cfg", "Cancel_fd_q.cfg", "Cancel_caw_q.cfg",
-         "Cancel_reg_q.cfg", "Cancel_reg_fd_q.cfg"]
+         "Cancel_reg_q.cfg", "Cancel_reg_fd_q.cfg", "Cancel_set_data_q.cfg", "Cancel_set_fd_q.cfg", "Cancel_set_timer_q.cfg"]
 THOROUGH = QUICK + ["Cancel_data_t.cfg", "Cancel_timer_t.cfg", "Cancel_fd_t.cfg", "Cancel_signal_t.cfg",
                     "Cancel_caw_data_t.cfg", "Cancel_caw_fd_t.cfg", "Cancel_caw_timer_t.cfg",
                     "Cancel_global_t.cfg", "Cancel_data_global_t.cfg", "Cancel_susp_t.cfg",
-                    "Cancel_reg_data_t.cfg", "Cancel_reg_fd_t.cfg", "Cancel_reg_timer_t.cfg"]
+                    "Cancel_reg_data_t.cfg", "Cancel_reg_fd_t.cfg", "Cancel_reg_timer_t.cfg",
+                    "Cancel_set2_data_q.cfg", "Cancel_set_data_t.cfg", "Cancel_set_fd_t.cfg", "Cancel_set_timer_t.cfg",
+                    "Cancel_set_global_t.cfg", "Cancel_set_susp_t.cfg"]
 PINNED = "Cancel_fd_pinned.cfg"
 # (mutant, base config, judged by)
 MUTANTS = [("callout_before_unreg", "Cancel_fd_q.cfg", "safety"),
@@ -40,10 +49,16 @@ MUTANTS = [("callout_before_unreg", "Cancel_fd_q.cfg", "safety"),
            ("callout_on_mgr", "Cancel_fd_q.cfg", "safety"),
            ("caw_no_wait", "Cancel_caw_q.cfg", "safety"),
            ("stale_flags_after_registration", "Cancel_reg_q.cfg", "own"),
-           ("no_waiter_wake", "Cancel_caw_q.cfg", "live")]
+           ("no_waiter_wake", "Cancel_caw_q.cfg", "live"),
+           # the seeded reading of "Ignore handlers mutations past cancelation": the call returns without installing
+           ("set_dropped_when_canceled", "Cancel_set_fd_q.cfg", "converge"),
+           ("wakeup_ignores_items", "Cancel_set_data_q.cfg", "converge")]
 MUTANTS_T = [("handler_not_taken", "Cancel_timer_q.cfg", "safety"),
              ("keep_epoll", "Cancel_signal_q.cfg", "safety"),
-             ("stale_flags_after_registration", "Cancel_reg_fd_q.cfg", "own")]
+             ("stale_flags_after_registration", "Cancel_reg_fd_q.cfg", "own"),
+             ("set_dropped_when_canceled", "Cancel_set_data_q.cfg", "converge"),
+             ("final_wakeup_ignores_handlers", "Cancel_set_fd_q.cfg", "converge"),
+             ("handler_not_taken", "Cancel_set_data_q.cfg", "safety")]
 PROPERTY_INVARIANTS = "INVARIANTS TypeOK C16 HandlerExclusive CancelHandlerOnce ConvergedAtQuiescence"
 
 
@@ -91,6 +106,10 @@ def _model_job(job):
         # informational: the header contract of cancel_and_wait (stronger than C16) on the hang-up configuration
         src = src.replace('Mut = "strict"', 'Mut = "none"')
         src = re.sub(r"^INVARIANTS .*$", "INVARIANTS TypeOK CawStrict", src, flags=re.M)
+    if mode == "onecallout":
+        # informational: NOT guaranteed by the code once a cancel handler is (re)installed after activation
+        src = src.replace('Mut = "onecallout"', 'Mut = "none"')
+        src = re.sub(r"^INVARIANTS .*$", "INVARIANTS TypeOK OneCalloutPerSource", src, flags=re.M)
     p = os.path.join(rundir(PROP), "mut_%s_%s" % (mut, cfg))
     open(p, "w").write(src)
     return job, _checked("mutant " + mut, "Cancel.tla", p, timeout=1200, workers=2, metaname="c16_mut_%s.%d" % (mut, os.getpid()),
@@ -102,7 +121,8 @@ def model(v, tier):
     cfgs = QUICK if tier == "quick" else THOROUGH
     jobs = [("base", c, None, None) for c in cfgs] + [("base", PINNED, None, None)] + \
            [("mut", c, m, mode) for m, c, mode in (MUTANTS if tier == "quick" else MUTANTS + MUTANTS_T)] + \
-           ([("mut", "Cancel_caw_fd_t.cfg", "strict", "strict")] if tier != "quick" else [])
+           ([("mut", "Cancel_caw_fd_t.cfg", "strict", "strict")] if tier != "quick" else []) + \
+           [("mut", "Cancel_set_data_q.cfg", "onecallout", "onecallout")]
     with ThreadPoolExecutor(max_workers=6) as ex:
         results = list(ex.map(_model_job, jobs))
     v.notes["model_checking_wall_s"] = round(time.time() - t0, 1)
@@ -128,12 +148,25 @@ def model(v, tier):
                         "hang-up's event handler invocation is running / committed" if r.violated == "CawStrict"
                         else "no counterexample (%s)" % r.violated),
                 "judged": "informational - C16 does not state it"}
+        elif mode == "onecallout":
+            v.notes["cancel_callouts_per_source_with_late_handlers"] = {
+                "config": cfg, "invariant": "OneCalloutPerSource (at most one cancel handler invocation per source, whatever the handler)",
+                "tlc": ("counterexample found: a handler that dispatch_source_set_cancel_handler installs after the callout of the "
+                        "previous handler (or whose barrier item is drained after it: cancel + set from the event handler) gets a "
+                        "callout of its own - two cancel handler invocations on one source, each handler once"
+                        if r.violated == "OneCalloutPerSource" else "no counterexample (%s)" % r.violated),
+                "judged": "informational - what src/source.c does on purpose (_dispatch_source_wakeup / _dispatch_source_invoke2 "
+                          "re-run the cancel callout while a handler is left); judged per handler: exactly once for the last "
+                          "installed, never after its replacement took effect, never twice"}
         else:
             if not r.violated or r.violated == "TypeOK":
                 raise Broken("spec mutant %s not refuted in %s: the properties are vacuous in these bounds" % (mut, cfg))
             if mode == "own" and (r.violated != "C16" or _bad_of(r) != "handler_started_after_cancel_from_own_context"):
                 raise Broken("spec mutant %s must be refuted by the own-context-cancel invariant, not by %s / %s"
                              % (mut, r.violated, _bad_of(r)))
+            if mode == "converge" and r.violated != "ConvergedAtQuiescence":
+                raise Broken("spec mutant %s must be refuted by convergence (an installed cancel handler that never runs), not by "
+                             "%s / %s" % (mut, r.violated, _bad_of(r)))
             if mode == "live" and not r.violated.startswith("temporal"):
                 raise Broken("liveness mutant %s refuted by %s, not by the temporal properties" % (mut, r.violated))
             v.notes.setdefault("spec_mutants_refuted", []).append(
@@ -241,6 +274,12 @@ def traces(v, tier, seed):
     jobs.append((drv, runs, seed * 1000 + 900, 2, 24 if tier == "quick" else 60, FD_KINDS, M_HANGUP_BITS, 1))
     # cancel / merge from the registration handler with an event already pending (data, read, write sources)
     jobs.append((drv, runs + 1, seed * 1000 + 901, 2, 24 if tier == "quick" else 60, 0x7b, M_REG_BITS, 0))
+    # dispatch_source_set_cancel_handler[_f] after activation: from the event handler right after the cancel, from another
+    # thread (racing the callout / after the final state), from a target-queue item, replace before the cancel, clear, twice
+    jobs.append((drv, runs + 2, seed * 1000 + 902, 2, 36 if tier == "quick" else 90, ALL_KINDS, M_SCH_BITS, 0))
+    if tier != "quick":
+        jobs.append((drv, runs + 3, seed * 1000 + 903, 3, 90, ALL_KINDS, M_SCH_BITS, 0))
+        jobs.append((drv, runs + 4, seed * 1000 + 904, 1, 90, ALL_KINDS, M_SCH_BITS, 0))
     kf = {x["key"]: x for x in known_findings(PROP)["findings"]}
     cover = collections.Counter()
     stats = collections.Counter()
@@ -309,7 +348,8 @@ def traces(v, tier, seed):
                     if m and int(m.group(1)):
                         stats["drift_records"] += int(m.group(1))
                 for k in ("late_after_foreign_cancel", "late_after_caw", "handler_running_at_caw_ret", "steered_hangup", "steered_late",
-                          "reg_cancel_with_event_pending"):
+                          "reg_cancel_with_event_pending", "set_ch_calls", "replaced_handler_ran_before_replacement",
+                          "set_ch_after_final_state", "rest_wait_timeouts"):
                     stats[k] += _stat(err, k)
                 if len(v.samples) < 3:
                     lines = open(tr).read().splitlines()
@@ -332,6 +372,11 @@ def traces(v, tier, seed):
         "before the last event handler invocation ran: happens when a hang-up had already set DSF_DELETED (the function "
         "returns at once on DSF_DELETED).  The header promises otherwise; C16 only states convergence to the final state "
         "and 'at most the one invocation already committed', which holds - not judged as a violation",
+        "set_ch_calls = dispatch_source_set_cancel_handler[_f] calls on activated sources; set_ch_after_final_state = of those, "
+        "calls that found {CANCELED, DELETED} already set (the late handler still got its one callout); "
+        "replaced_handler_ran_before_replacement = executions in which an earlier handler generation was invoked before its "
+        "replacement took effect and the later one was invoked as well (two callouts on one source: allowed by the code, "
+        "see cancel_callouts_per_source_with_late_handlers)",
     ]
 
 
